@@ -397,11 +397,17 @@ def run_shard(idx, sh, binary, prop, seed, logdir):
     """Run one shard; if the process dies inside history h, record the crash and resume at h+1."""
     out = []
     skip = 0
+    hangs = 0
     for attempt in range(MAX_RESTARTS + 1):
         r = run_shard_once(idx, sh, binary, prop, seed, logdir, attempt, skip)
         out.append(r)
         if r["res"] is not None or r["died_at"] is None:
             break
+        if r["rc"] == 86:
+            # each hang costs the watchdog's patience: do not chase more than three per shard
+            hangs += 1
+            if hangs >= 3:
+                break
         skip = r["died_at"] + 1
     return out
 
